@@ -255,9 +255,20 @@ def rule_handle_dot_inline(ctx: Ctx, rule: str) -> None:
     repo = ctx.repo
     fi = repo.func('_wcparse', 'WcParse._handle_dot')
     variants = wcparse_variants(repo)
-    js = [n for n in walk_no_nested(fi.node) if isinstance(n, ast.JoinedStr)]
+    # the emitted values: arguments of `<list>.append(..)`; the literal-dot arm is `re.escape('.')`, the other one is the fragment
+    # (however it is spelled: f-string, concatenation, str.format, or a local holding it)
+    from ..boolform import inline_locals
+    js = []
+    for c in walk_no_nested(fi.node):
+        if isinstance(c, ast.Call) and isinstance(c.func, ast.Attribute) and c.func.attr == 'append' and len(c.args) == 1:
+            a = c.args[0]
+            if isinstance(a, ast.Name):
+                a = inline_locals(fi.node, a)
+            if isinstance(a, ast.Call) and norm_src(a.func) == 're.escape':
+                continue
+            js.append(a)
     if len(js) != 1:
-        raise AnalysisError(f'WcParse._handle_dot: expected one inline regex f-string, found {len(js)}')
+        raise AnalysisError(f'WcParse._handle_dot: expected one emitted regex fragment besides the escaped literal dot, found {len(js)}')
     for var in ('unix', 'win'):
         v = fold_in(repo, fi, js[0], variants[var])
         S = SEP[var]
